@@ -52,8 +52,10 @@ class Likelihood(ABC):
         else:
             raise ValueError("Given forward_model_jacobian object must be callable")
 
-        self.y = array(y_data).squeeze()
-        _uncertainties = array(uncertainties).squeeze()
+        # data and uncertainties are held as floats: with narrow integer types the
+        # logarithms and reciprocals below would be taken in half or single precision
+        self.y = array(y_data, dtype=float).squeeze()
+        _uncertainties = array(uncertainties, dtype=float).squeeze()
         setattr(self, uncertainties_name, _uncertainties)
         self.model = forward_model
 
